@@ -117,6 +117,40 @@ def check_pipeline(data, names):
     return None
 
 
+SEQ_ATOMS = [("perm", b""), ("perm", b"\x01\x02\x03"), ("perm", bytes(range(8))), ("flip", b"\x00\x80\x01\xff"), ("flip", b"\x7f"),
+             ("swap", b"\x06\x09\x01\x03\x0c", 3), ("swap", b"\x00\x00", 1), ("swap", b"\x05\x0a\x0f", 5), ("swap", b"\x01\x02", 0),
+             ("swap", b"\x03\x06", -1), ("perm", bytes(range(9, 0, -1)))]
+
+
+def check_atom(atom):
+    if atom[0] == "perm":
+        return check_perm(bytes(atom[1]))
+    if atom[0] == "flip":
+        return check_flip(bytes(atom[1]))
+    return check_swap(bytes(atom[1]), int(atom[2]))
+
+
+def check_seq(seq):
+    for i, atom in enumerate(seq):
+        w = check_atom(atom)
+        if w:
+            return f"call sequence of {len(seq)} at #{i} ({atom[0]}): {w}"
+    return None
+
+
+def _seq_shard(firsts):
+    loader.install_shims()
+    count, bad = 0, []
+    for a in firsts:
+        for rest in itertools.product(SEQ_ATOMS, repeat=2):
+            count += 1
+            seq = [a] + list(rest)
+            w = check_seq(seq)
+            if w and len(bad) < 3:
+                bad.append(({"fn": "seq", "data": b"", "seq": [list(x) for x in seq]}, w))
+    return count, bad
+
+
 def _marks(n, mod):
     return bytes((i * 7 + 1) % mod for i in range(n))
 
@@ -229,6 +263,8 @@ def run(tier, seed):
     pa2 = (0, 3, 7, 0x80, 0x15)
     results += par.pmap(_short_shard, [([p], pa2, 4 if quick else 5, "pipe") for p in itertools.product(pa2, repeat=1)])
 
+    results += par.pmap(_seq_shard, [[a] for a in SEQ_ATOMS])
+
     evals = sum(r[0] for r in results)
     violations = []
     for _, bads in results:
@@ -249,7 +285,7 @@ def run(tier, seed):
             "zeros) + every string over {0,1,0x80,0xFF} up to len 6/8; flip_msb: all 256 bytes, all 65,536 pairs, short "
             "strings over an 8-symbol alphabet; swap_multiples: all strings up to len 6/7 over {0,1,2,3,4,6,9} x multiples "
             "0..9, every divisibility pattern up to len 10/12 for each multiple; all 125 pipelines of 3 primitives undone "
-            "by inverses in reverse order.  Each case compares with M5 and checks the stated algebra.  Non-trivial = "
+            "by inverses in reverse order; every ordered triple of 11 mixed calls (hidden-state detection).  Each case compares with M5 and checks the stated algebra.  Non-trivial = "
             "all but the three empty inputs."
         ),
         "samples": [
@@ -263,6 +299,8 @@ def run(tier, seed):
 def replay(case):
     loader.install_shims()
     fn = case["fn"]
+    if fn == "seq":
+        return check_seq([tuple(a) for a in case["seq"]])
     data = bytes(case["data"])
     if fn == "perm":
         return check_perm(data)
